@@ -24,7 +24,7 @@ CONFIG = {
              "that wrote at least one manifest."),
 }
 
-WEIGHTS = {"p_create": 0.55, "p_edit": 0.2, "p_ro": 0.05, "nested": 0.5, "sf": 0.25}
+WEIGHTS = {"p_create": 0.55, "p_edit": 0.2, "p_ro": 0.05, "nested": 0.5, "sf": 0.25, "i": 0.2}
 
 
 def generate_long(rng):
@@ -195,6 +195,25 @@ def monitor(ctx, st):
             return
         if stray:
             ctx.probe("stray_file_in_ascmhl")
+    # every history the command touches (the command root, the nested histories it traverses or whose files it records,
+    # and the histories in between) received its one generation -- none was left out
+    if code in (0, 10, 11):
+        from .. import model
+
+        A = model.analyze_create(st)
+        if A is not None and not A.error:
+            na = False
+            if A.mode == "sf":
+                extra = [p_ for p_ in (A.prev_patterns_root or []) if p_ not in observe.default_patterns()]
+                if extra and any(os.path.isdir(p_) for p_ in A.sf):
+                    ig = observe.make_ignore(extra, A.cmd_root)
+                    na = any(ig(f) for f in A.files)
+            if not na and set(A.new) != A.exp_generation:
+                rel = lambda p_: os.path.relpath(p_, st.world.root)
+                ctx.violate({"kind": "touched-history-without-generation" if A.exp_generation - set(A.new) else
+                             "generation-in-untouched-history", "exit": code},
+                            f"{op['argv']}: generations in {sorted(map(rel, A.new))}, histories touched {sorted(map(rel, A.exp_generation))}")
+                return
     if n_new:
         ctx.nontrivial = True
     if same_second:
@@ -223,7 +242,7 @@ def final(ctx, w, steps):
         return
     sections = []
     cur = None
-    for line in r.stdout.splitlines():
+    for line in r.stdout.split("\n"):
         if line.startswith("Info with history") or line.startswith("Child History at"):
             cur = []
             sections.append(cur)
